@@ -21,7 +21,12 @@ func NewIndividualAdditionalNames(individual *gedcom.IndividualNode) *Individual
 
 func (c *IndividualAdditionalNames) WriteHTMLTo(w io.Writer) (int64, error) {
 	rows := []core.Component{}
-	names := c.individual.Names()[1:]
+	// All of the names except the first (primary) name. The individual may not
+	// have any names at all.
+	names := c.individual.Names()
+	if len(names) > 0 {
+		names = names[1:]
+	}
 
 	for _, name := range names {
 		row := core.NewKeyedTableRow(
